@@ -9,7 +9,8 @@ Import ListNotations.
 Section SingleAssignment.
   Variables (K F : Type) (eqb : K -> K -> bool).
   Variable g : K -> (K -> F) -> F.           (* the value the program stores at entry i, from the current state *)
-  Definition sa_step (v : K -> F) (i : K) : K -> F := fun k => if eqb k i then g i v else v k.
+  (* the stored value is computed once, when the step executes (let-bound so that the extracted model does not recompute it on every read) *)
+  Definition sa_step (v : K -> F) (i : K) : K -> F := let x := g i v in fun k => if eqb k i then x else v k.
   Definition sa_run (order : list K) (v0 : K -> F) : K -> F := fold_left sa_step order v0.
 End SingleAssignment.
 Arguments sa_step {K F}. Arguments sa_run {K F}.
